@@ -774,7 +774,7 @@ impl Subscription {
             .await?;
         #[cfg(feature = "verif-hooks")]
         crate::verif::pause_async("sub:stream:before-first-batch", self.subscription_id.as_u128()).await;
-        while let Some(commits) = iter.next_batch(DEFAULT_BATCH_SIZE).await? {
+        'iter: while let Some(commits) = iter.next_batch(DEFAULT_BATCH_SIZE).await? {
             #[cfg(feature = "verif-hooks")]
             crate::verif::pause_async("sub:stream:batch-fetched", self.subscription_id.as_u128()).await;
             for commit in commits {
@@ -783,7 +783,10 @@ impl Subscription {
                 };
 
                 if !watermark.can_read(first_partition_sequence) {
-                    break;
+                    // Stop the whole history read, not just this batch: if the watermark
+                    // advanced before the next batch were looked at, its events would be
+                    // delivered although the rest of this one was skipped.
+                    break 'iter;
                 }
 
                 for event in commit {
